@@ -567,6 +567,14 @@ func main() {
 	}
 	fmt.Fprintf(&b, "def fileSrc : FileSrcFacts := { fileStreamCap := %s, runSelectsTerminating := %s, readErrShutdownBeforeClose := %s, resultChanQueuedInReadOrder := %s, forwarderSequential := %s }\n",
 		cap, facts["runSelectsTerminating"], facts["readErrShutdownBeforeClose"], facts["resultChanQueuedInReadOrder"], facts["forwarderSequential"])
+	// arithmetic helpers translated from the source (see translate.go)
+	b.WriteString("\n/-! translated from the Go source on every run -/\nnamespace Gen\n")
+	util, tutil := p("util.go"), p("transform/block_index_helpers.go")
+	b.WriteString(translateFunc(util.method("", "lowBoundary"), "lowBoundary", nil))
+	b.WriteString(translateFunc(tutil.method("", "lowBoundary"), "indexLowBoundary", nil))
+	b.WriteString(translateFunc(hubGo.method("", "substractAndRoundDownBlocks"), "substractAndRoundDownBlocks",
+		map[string]string{"bstream.GetProtocolFirstStreamableBlock": "fsb"}))
+	b.WriteString("end Gen\n")
 	b.WriteString("\nend BstreamVerif.Facts\n")
 	os.WriteFile(os.Args[2], []byte(b.String()), 0644)
 }
